@@ -22,8 +22,8 @@ static struct plan *G;
 /* ---- C05: timer populations ---------------------------------------------------------------- */
 static void gen_timers(int tier)
 {
-	int big = tier > 0, ctl, steps, k, pop = 0;
-	int target_hi = big ? (P(50) ? 17000 + R(3000) : 200 + R(400)) : (P(85) ? 140 + R(260) : 16500 + R(600));
+	int big = tier > 0, ctl, steps, k, pop = 0, small = P(35);
+	int target_hi = small ? 6 + R(40) : big ? (P(50) ? 17000 + R(3000) : 200 + R(400)) : (P(85) ? 140 + R(260) : 16500 + R(600));
 	int64_t span = (int64_t[]){ 1000, MS, 50 * MS, SEC, 30 * SEC }[R(5)];
 
 	gx_common_cfg(1);
@@ -40,12 +40,38 @@ static void gen_timers(int tier)
 	/* the controller: a timer that performs one population step per firing and re-arms itself */
 	ctl = gx_add_obj(K_TIMER, 0);
 	G->obj[ctl].p[0] = 1;
-	gx_add_op(CTX_SETUP, 0, 0, OP_BULK, 0, P(50) ? target_hi / 2 : 10 + R(100), span, gx_u64() % 100000);
+	gx_add_op(CTX_SETUP, 0, 0, OP_BULK, 0, small ? 2 + R(target_hi) : P(50) ? target_hi / 2 : 10 + R(100), span, gx_u64() % 100000);
 	pop = 100;
 	if (P(30))
 		gx_add_op(CTX_SETUP, 0, 0, OP_BULK, 2, 1 + R(20), 0, gx_u64() % 100000);
 	gx_add_op(CTX_SETUP, 0, 0, OP_REG, ctl, 1, (int64_t[]){ 0, 1, 1000, MS, span / 8 + 1, span / 2 + 1, span }[R(7)], 0);
 	steps = 6 + R(big ? 30 : 18);
+	if (small) {
+		/* Churn, then drain.  A small population (every heap position -- root, interior, last, last
+		 * but one -- is a likely victim) gets a few single removals and registrations in one
+		 * callback, and is then left alone until everything has expired, so that whatever damage a
+		 * removal did to the timer store shows up as a late or out-of-order expiry instead of being
+		 * repaired by the next removal.  Some cycles continue the churn after a short delay instead. */
+		int fresh = 0, lastn = 8;
+		steps = 40 + R(big ? 400 : 200);
+		if (span > SEC)
+			span = SEC;
+		for (k = 1; k <= steps; k++) {
+			int drain = P(70);
+			if (fresh) {
+				lastn = 3 + R(37);
+				gx_add_op(CTX_CB, ctl, k, OP_BULK, 0, lastn, P(15) ? 1 : span, gx_u64() % 100000);
+			}
+			gx_add_op(CTX_CB, ctl, k, OP_BULK, 1, 1 + (P(70) ? 0 : R(3)), P(45) ? 0 : P(60) ? 5 : R(5), gx_u64() % 100000);
+			/* later arrivals: a few, or enough of them that the old part of the store is not the
+			 * first to be touched again when the population drains */
+			if (P(85))
+				gx_add_op(CTX_CB, ctl, k, OP_BULK, P(90) ? 0 : 2, P(50) ? 1 + R(3) : lastn + R(2 * lastn), span, gx_u64() % 100000);
+			gx_add_op(CTX_CB, ctl, k, OP_REG, ctl, 1, drain ? 2 * span + 1 : (int64_t[]){ 0, 1, 1000, span / 64 + 1, span / 16 + 1 }[R(5)], 0);
+			fresh = drain;
+		}
+		steps = 0;
+	}
 	for (k = 1; k <= steps; k++) {
 		int r = R(100);
 		if (r < 45) {
@@ -67,6 +93,11 @@ static void gen_timers(int tier)
 	(void)pop;
 	gx_absent(8);
 	gx_eintr(1, 15);
+	if (P(12)) {
+		/* a parked timer (expiry centuries away) beside the population */
+		int pk = gx_add_obj(K_TIMER, 0);
+		gx_add_op(CTX_SETUP, 0, 0, OP_REG, pk, 4, R(3000), 0);
+	}
 }
 
 int gen_ext4(struct plan *p, const char *scenario, const char *prop, int tier);
